@@ -95,6 +95,17 @@ example : (eval (.binop true (.range ⟨true, false, [.ok, .openFail]⟩ true) (
     = [(0, 0)] := by decide
 example : (selectLogs ⟨true, false, [.ok, .openFail]⟩ init).1.isOk = false := by decide
 
+/-- vector aggregations and literal operands open nothing of their own: `sum by (..) (q)` and
+`q * 2` open exactly the readers of `q`, also when the wrapper itself cannot be built (and
+`C14_opened_iff_closed` says they are all closed) -/
+theorem C14_wrappers_open_nothing (q : Q) (st : St) (hq : q.isMetric = true) (ok : Bool) :
+    (eval (.vecAgg ok q) st).2.opened = (eval q st).2.opened ∧
+    (eval (.litOp q) st).2.opened = (eval q st).2.opened :=
+  eval_wrapper_opened q st hq ok
+
+-- non-vacuity: an unsupported aggregation over a selection of two containers
+example : (eval (.vecAgg false (.range ⟨true, false, [.ok, .ok]⟩ true)) init).2.closed = [(0, 0), (0, 1)] := by decide
+
 -- non-vacuity: open failure in the middle, both neighbours opened and closed
 example : (eval (.log ⟨true, false, [.ok, .openFail, .streamFault]⟩) init).2.closed = [(0, 0), (0, 2)] := by decide
 
